@@ -245,24 +245,36 @@ impl DebuggerContext {
         let is_done_signal = Arc::clone(&self.is_done);
 
         let rsender = sender.clone();
+        #[cfg(pest_parser_pest_verif)]
+        let sender = verif_hooks::YieldBeforeSend(sender, "t_final_send");
         thread::spawn(move || {
+            #[cfg(pest_parser_pest_verif)]
+            verif_hooks::at("t_start");
             let vm = Vm::new_with_listener(
                 ast,
                 Box::new(move |rule, pos| {
+                    #[cfg(pest_parser_pest_verif)]
+                    verif_hooks::at("l_load");
                     if is_done_signal.load(Ordering::SeqCst) {
                         return true;
                     }
 
+                    #[cfg(pest_parser_pest_verif)]
+                    verif_hooks::at("l_lock");
                     let contains_rule = {
                         let lock = breakpoints.lock().expect(POISONED_LOCK_PANIC);
                         lock.contains(&rule)
                     };
 
                     if contains_rule {
+                        #[cfg(pest_parser_pest_verif)]
+                        verif_hooks::at("l_send");
                         rsender
                             .send(DebuggerEvent::Breakpoint(rule, pos.pos()))
                             .expect(CHANNEL_CLOSED_PANIC);
 
+                        #[cfg(pest_parser_pest_verif)]
+                        verif_hooks::at("l_park");
                         thread::park();
                     }
                     false
@@ -276,7 +288,11 @@ impl DebuggerContext {
                     .expect(CHANNEL_CLOSED_PANIC),
             };
 
+            #[cfg(pest_parser_pest_verif)]
+            verif_hooks::at("t_store");
             is_done.store(true, Ordering::SeqCst);
+            #[cfg(pest_parser_pest_verif)]
+            verif_hooks::at("t_exit");
         })
     }
 
@@ -305,16 +321,28 @@ impl DebuggerContext {
     /// This naturally returns errors if the grammar or input haven't been loaded yet etc.
     pub fn run(&mut self, rule: &str, sender: Sender<DebuggerEvent>) -> Result<(), DebuggerError> {
         if let Some(handle) = self.handle.take() {
+            #[cfg(pest_parser_pest_verif)]
+            verif_hooks::at("r_load");
             if !(self.is_done.load(Ordering::Relaxed)) {
+                #[cfg(pest_parser_pest_verif)]
+                verif_hooks::at("r_store");
                 self.is_done.store(true, Ordering::SeqCst);
+                #[cfg(pest_parser_pest_verif)]
+                verif_hooks::at("r_unpark");
                 handle.thread().unpark();
             }
+            #[cfg(pest_parser_pest_verif)]
+            verif_hooks::at("r_join");
             handle
                 .join()
                 .map_err(|e| DebuggerError::PreviousRunPanic(format!("{e:?}")))?;
         }
 
+        #[cfg(pest_parser_pest_verif)]
+        verif_hooks::at("r_reset");
         self.is_done.store(false, Ordering::SeqCst);
+        #[cfg(pest_parser_pest_verif)]
+        verif_hooks::at("r_spawn");
         let ast = self
             .grammar
             .as_ref()
@@ -334,12 +362,16 @@ impl DebuggerContext {
     /// Continue the debugger session from the breakpoint.
     /// It returns an error if the session finished or wasn't started yet.
     pub fn cont(&self) -> Result<(), DebuggerError> {
+        #[cfg(pest_parser_pest_verif)]
+        verif_hooks::at("c_load");
         if self.is_done.load(Ordering::SeqCst) {
             return Err(DebuggerError::EofReached);
         }
 
         match self.handle {
             Some(ref handle) => {
+                #[cfg(pest_parser_pest_verif)]
+                verif_hooks::at("c_unpark");
                 handle.thread().unpark();
                 Ok(())
             }
@@ -364,6 +396,50 @@ impl Default for DebuggerContext {
             grammar: None,
             input: None,
             breakpoints: Arc::new(Mutex::new(HashSet::new())),
+        }
+    }
+}
+
+/// Verification hook, compiled only with `--cfg pest_parser_pest_verif` (add-only; without the
+/// cfg nothing in this crate changes).  Every control point of the debugger protocol (the
+/// listener closure, the body of the parsing thread, `run` and `cont`) calls [`at`] with its
+/// name just before the shared-state operation it names; a test harness installs a callback
+/// with [`set_callback`] and blocks inside it to force a chosen interleaving of the controlling
+/// thread and the parsing thread.
+#[cfg(pest_parser_pest_verif)]
+pub mod verif_hooks {
+    use std::sync::mpsc::{SendError, SyncSender};
+    use std::sync::RwLock;
+
+    static CALLBACK: RwLock<Option<fn(&'static str)>> = RwLock::new(None);
+
+    /// Installs (or removes) the process-wide yield-point callback.
+    pub fn set_callback(callback: Option<fn(&'static str)>) {
+        *CALLBACK.write().expect("poisoned lock") = callback;
+    }
+
+    /// Names of all yield points, in program order per function.
+    pub const POINTS: &[&str] = &[
+        "t_start", "l_load", "l_lock", "l_send", "l_park", "t_final", "t_final_send", "t_store",
+        "t_exit", "r_load", "r_store", "r_unpark", "r_join", "r_reset", "r_spawn", "c_load",
+        "c_unpark",
+    ];
+
+    /// A yield point: calls the installed callback, if any, on the current thread.
+    pub fn at(point: &'static str) {
+        let callback = *CALLBACK.read().expect("poisoned lock");
+        if let Some(callback) = callback {
+            callback(point);
+        }
+    }
+
+    /// A sender whose `send` is preceded by a yield point.
+    pub(crate) struct YieldBeforeSend<T>(pub(crate) SyncSender<T>, pub(crate) &'static str);
+
+    impl<T> YieldBeforeSend<T> {
+        pub(crate) fn send(&self, t: T) -> Result<(), SendError<T>> {
+            at(self.1);
+            self.0.send(t)
         }
     }
 }
